@@ -74,12 +74,13 @@ Definition idents_eqb := list_eqb ident_eqb.
 Definition column_eqb (a b : column) : bool :=
   ident_eqb (c_name a) (c_name b) && tytok_eqb (c_type a) (c_type b) && option_eqb sdefault_eqb (c_default a) (c_default b)
   && obool_eqb (c_autoinc a) (c_autoinc b) && Bool.eqb (c_nullable a) (c_nullable b) && Bool.eqb (c_system a) (c_system b)
-  && ostr_eqb (c_comment a) (c_comment b).
+  && ostr_eqb (c_comment a) (c_comment b) && ostr_eqb (c_key a) (c_key b).
+Definition refcol_eqb (a b : refcol) : bool := str_eqb (rf_spec a) (rf_spec b) && ostr_eqb (rf_named a) (rf_named b).
 Definition tcons_eqb (a b : tcons) : bool :=
   match a, b with
   | CPk c n, CPk c' n' => idents_eqb c c' && cname_eqb n n'
   | CFk c r n ou od i d ua m, CFk c' r' n' ou' od' i' d' ua' m' =>
-      idents_eqb c c' && strs_eqb r r' && cname_eqb n n' && ostr_eqb ou ou' && ostr_eqb od od' && ostr_eqb i i'
+      idents_eqb c c' && list_eqb refcol_eqb r r' && cname_eqb n n' && ostr_eqb ou ou' && ostr_eqb od od' && ostr_eqb i i'
       && obool_eqb d d' && Bool.eqb ua ua' && ostr_eqb m m'
   | CUq c n d i, CUq c' n' d' i' => idents_eqb c c' && cname_eqb n n' && obool_eqb d d' && ostr_eqb i i'
   | CCk s n, CCk s' n' => str_eqb s s' && cname_eqb n n'
@@ -90,7 +91,7 @@ Definition table_eqb (a b : table) : bool :=
   && list_eqb tcons_eqb (t_cons a) (t_cons b) && ostr_eqb (t_comment a) (t_comment b) && strs_eqb (t_prefixes a) (t_prefixes b)
   && obool_eqb (t_if_not_exists a) (t_if_not_exists b).
 Definition ixexpr_eqb (a b : ixexpr) : bool :=
-  match a, b with IxCol x, IxCol y => ident_eqb x y | IxExpr x, IxExpr y => str_eqb x y | _, _ => false end.
+  match a, b with IxCol x k, IxCol y k' => ident_eqb x y && ostr_eqb k k' | IxExpr x, IxExpr y => str_eqb x y | _, _ => false end.
 Definition tri_eqb {A} (e:A -> A -> bool) (a b : tri A) : bool :=
   match a, b with Keep, Keep | SetNone, SetNone => true | SetTo x, SetTo y => e x y | _, _ => false end.
 Definition altercol_eqb (a b : altercol) : bool :=
@@ -136,6 +137,8 @@ Definition top_op_eqb (a b : top_op) : bool :=
   end.
 Definition ops_eqb := list_eqb top_op_eqb.
 
+Definition is_opaque (o:top_op) : bool := match o with TOpaque => true | _ => false end.
+
 (* ---------------------------------------------------------------- input, output, model *)
 Definition c08_in := (cfg * list top_op)%type.
 (* o_parsed: the rendered text parsed by CPython's ast (None = SyntaxError);
@@ -143,15 +146,22 @@ Definition c08_in := (cfg * list top_op)%type.
    o_sql_same: executing the text and invoking the operation objects emit the same SQL on every dialect *)
 Record c08_out := mkOut { o_parsed : option (list pystmt); o_exec : option (list top_op); o_sql_same : bool }.
 
+(* CreateTableOp.to_table builds the referred table of an inline ForeignKey from ForeignKey._get_colspec(), which names the
+   referred column by its KEY: invoked directly, such an operation emits REFERENCES t2 (<key>), while the rendered code, where
+   _fk_colspec has translated the key into the database name, emits REFERENCES t2 (<name>).  fk_by_name: no referred column
+   of the operation has a name different from its key spec (then both paths agree). *)
+Definition ref_by_name (r:refcol) : bool := match rf_named r with Some n => str_eqb n (rf_spec r) | None => true end.
+Definition cons_by_name (k:tcons) : bool := match k with CFk _ refs _ _ _ _ _ _ _ => forallb ref_by_name refs | _ => true end.
+Definition fk_by_name (o:top_op) : bool := match o with TCreateTable t => forallb cons_by_name (t_cons t) | _ => true end.
+
 Definition model_C08 (i:c08_in) : c08_out :=
   let (c, ops) := i in
   let st := render_ops c ops in
   let ev := eval_stmts c st in
-  mkOut (Some st) ev (match ev with Some l => ops_eqb l (expected c ops) | None => false end).
+  mkOut (Some st) ev (match ev with Some l => ops_eqb l (expected c ops) && forallb fk_by_name ops | None => false end).
 
 (* an input that contains an operation outside the modelled universe carries no model statement: there the comparison is
    vacuous and only the decider speaks (such an input is never in the class: can_top TOpaque = false) *)
-Definition is_opaque (o:top_op) : bool := match o with TOpaque => true | _ => false end.
 Definition corr_C08 (i:c08_in) (o:c08_out) : bool :=
   existsb is_opaque (snd i) ||
   let m := model_C08 i in
@@ -189,10 +199,19 @@ Definition names_agree (nc:bool) (a b : list top_op) : bool :=
 (* ---------------------------------------------------------------- the property *)
 Definition exec_names_ok (i:c08_in) (o:c08_out) : bool :=
   match o_exec o with Some l => names_agree (cfg_nc (fst i)) l (expected (fst i) (snd i)) | None => true end.
+(* the rendered text itself, read back the way the Operations proxies read it, denotes the operations that were asked for
+   (key-erased): a keyword argument or a character of a literal that goes missing in the text is a different operation.
+   Inputs outside the modelled universe (TOpaque) have no such statement. *)
+Definition reads_back (i:c08_in) (o:c08_out) : bool :=
+  existsb is_opaque (snd i) ||
+  match o_parsed o with
+  | Some st => match eval_stmts (fst i) st with Some l => ops_eqb l (expected (fst i) (snd i)) | None => false end
+  | None => false
+  end.
 Definition C08_holds (i:c08_in) (o:c08_out) : Prop :=
-  (exists st, o_parsed o = Some st) /\ o_sql_same o = true /\ exec_names_ok i o = true.
+  (exists st, o_parsed o = Some st) /\ o_sql_same o = true /\ exec_names_ok i o = true /\ reads_back i o = true.
 Definition check_C08 (i:c08_in) (o:c08_out) : bool :=
-  match o_parsed o with Some _ => o_sql_same o && exec_names_ok i o | None => false end.
+  match o_parsed o with Some _ => o_sql_same o && exec_names_ok i o && reads_back i o | None => false end.
 
 (* ---------------------------------------------------------------- the class the theorems cover *)
 Definition nonempty (s:str) : bool := match s with [] => false | _ => true end.
@@ -220,7 +239,7 @@ Definition can_tcons (k:tcons) : bool :=
 Definition can_table (c:cfg) (t:table) : bool :=
   can_ident (t_name t) && can_oident (t_schema t) && forallb (can_column c) (t_cols t) && forallb can_tcons (t_cons t)
   && can_ostr (t_comment t).
-Definition can_ixexpr (e:ixexpr) : bool := match e with IxCol i => can_ident i | IxExpr _ => true end.
+Definition can_ixexpr (e:ixexpr) : bool := match e with IxCol i _ => can_ident i | IxExpr _ => true end.
 Definition can_tri {A} (f:A -> bool) (t:tri A) : bool := match t with SetTo a => f a | _ => true end.
 Definition is_keep {A} (t:tri A) : bool := match t with Keep => true | _ => false end.
 Definition is_none {A} (o:option A) : bool := match o with None => true | Some _ => false end.
@@ -257,6 +276,9 @@ Definition can_top (c:cfg) (o:top_op) : bool :=
       && (negb (cfg_batch c) || forallb (fun m => ident_eqb (fst (fst m)) tn && oident_eqb (snd (fst m)) s) ops)
   end.
 Definition canonical (i:c08_in) : bool := forallb (can_top (fst i)) (snd i).
+(* the constraints of a table are a set: the real renderer emits them sorted by their rendered text, direct invocation in
+   declaration order.  Both comparisons are insensitive to that order (the harness sorts the constraint arguments of a parsed
+   create_table call and the clauses of CREATE TABLE by one canonical key on both sides): the order has no effect. *)
 
 (* the opaque type trees given to the model *)
 Definition ty_ok (t:tytok) : bool := forallb all_leaves_via_repr (ty_args t).
@@ -297,14 +319,14 @@ Definition wf_column (x:column) : bool := wf_id (c_name x) && wf_ty (c_type x) &
 Definition wf_tcons (k:tcons) : bool :=
   match k with
   | CPk cols n => forallb wf_id cols && wf_cname n
-  | CFk cols refs n ou od i _ _ m => forallb wf_id cols && forallb valid_strb refs && wf_cname n && wf_ostr ou && wf_ostr od && wf_ostr i && wf_ostr m
+  | CFk cols refs n ou od i _ _ m => forallb wf_id cols && forallb (fun r => valid_strb (ref_text r)) refs && wf_cname n && wf_ostr ou && wf_ostr od && wf_ostr i && wf_ostr m
   | CUq cols n _ i => forallb wf_id cols && wf_cname n && wf_ostr i
   | CCk s n => valid_strb s && wf_cname n
   end.
 Definition wf_table (t:table) : bool :=
   wf_id (t_name t) && wf_oid (t_schema t) && forallb wf_column (t_cols t) && forallb wf_tcons (t_cons t) && wf_ostr (t_comment t)
   && forallb valid_strb (t_prefixes t).
-Definition wf_ixexpr (e:ixexpr) : bool := match e with IxCol i => wf_id i | IxExpr s => valid_strb s end.
+Definition wf_ixexpr (e:ixexpr) : bool := match e with IxCol i _ => wf_id i | IxExpr s => valid_strb s end.
 Definition wf_tri {A} (f:A -> bool) (t:tri A) : bool := match t with SetTo a => f a | _ => true end.
 Definition wf_alter (a:altercol) : bool :=
   wf_id (a_col a) && wf_oty (a_existing_type a) && wf_tri wf_sd (a_server_default a) && wf_oid (a_new_name a) && wf_oty (a_type a)
@@ -342,4 +364,4 @@ Definition wf_input (i:c08_in) : bool := wf_cfg (fst i) && forallb wf_top (snd i
    leaves via repr (they are SQLAlchemy's repr) and the input is well-formed *)
 Definition tokens_class (i:c08_in) : bool := forallb top_ty_ok (snd i) && wf_input i.
 
-Definition inclass_C08 (i:c08_in) : bool := canonical i && tokens_class i.
+Definition inclass_C08 (i:c08_in) : bool := canonical i && forallb fk_by_name (snd i) && tokens_class i.
